@@ -106,7 +106,6 @@ DecodeUnion(d, w) ==
 DecodeLeaf(d, w) ==
   LET k == d.kind IN
   IF w = "absent" THEN (IF d.req THEN Raise                       \* d.pop(name) -> KeyError
-                        ELSE IF IsList(k) /\ InnerOf(k) # "int" THEN <<"list", "arr0">>   \* `for x in (_v or [])` with the accumulator = [] (sic)
                         ELSE PyUnset)
   ELSE IF ~HasConstruct(k) THEN <<"raw", w>>                       \* stored as it came
   ELSE IF k = "listint" THEN <<"raw", w>>                          \* cast
